@@ -265,6 +265,8 @@ impl<'a> Basis for StandardBasis<'a> {
     }
 
     fn sample<R: Rng + ?Sized>(&self, rng: &mut R, step_size: f64) -> f64 {
+        #[cfg(feature = "verif")]
+        crate::verif_hooks::tag(crate::verif_hooks::Draw::Delta);
         self.get_value() + step_size * self.value_range() * rng.gen_range(-0.5, 0.5)
     }
 
